@@ -183,7 +183,12 @@ def tr2(ctx, flavours):
                     rv = s['rv']
                     # whole-struct aggregate
                     if rv['k'] == 'aggr' and rv['ak'] == 'adt:%s::%s' % (b['impl_self_q'], adt['variants'][0]['name']):
-                        stores.append((s['sp'], 'ctor', pv.of_operand(rv['ops'][ti])))
+                        tm_ = strip_payload(pv.of_operand(rv['ops'][ti]))
+                        if tm_ == ('f', ('param', 1), str(ti)):
+                            continue      # struct-update syntax (`Self { x, ..self }`): this field is carried over unchanged
+                        # a builder rebuilt from self by value is a setter, not a constructor
+                        kind_ = 'store' if F.types[b['locals'][1]].get('p') == b['impl_self_q'] and b['argc'] >= 1 else 'ctor'
+                        stores.append((s['sp'], kind_, pv.of_operand(rv['ops'][ti])))
                     # field store
                     elif s['dst']['p'] and s['dst']['p'][-1].split(':')[0] == '.%d' % ti and F.types[b['locals'][s['dst']['l']]].get('p', F.types[F.types[b['locals'][s['dst']['l']]]['a'][0]].get('p') if F.types[b['locals'][s['dst']['l']]]['a'] else None) == b['impl_self_q']:
                         if rv['k'] == 'aggr':
@@ -220,11 +225,35 @@ def init(ctx, flavours, fams=BUILDERS, which=None):
             ins = [(sbi, st) for sbi, st in calls_in(b, lambda x: callee_name(x).split('::')[-1] == 'insert') if strip_payload(pv.of_operand(st['args'][0])) == vis_arg]
             adds = [(sbi, st) for sbi, st in calls_in(b, lambda x: callee_name(x).split('::')[-1] in ('push_back', 'push_front', 'push')) if front_arg is not None and strip_payload(pv.of_operand(st['args'][0])) == front_arg and (cfg.dominates(sbi, bi))]
             ins = [(sbi, st) for sbi, st in ins if cfg.dominates(sbi, bi) or cfg.path_exists(sbi, bi)]
+
+            def literal(src_):
+                """elements of a collection built from a literal: `X::from([a, b])` (array term) or `vec![a, b]` (array written into a fresh box)"""
+                if isinstance(src_, tuple) and src_ and src_[0] == 'aggr' and src_[1].startswith('array'):
+                    return [strip_payload(x) for x in src_[2]]
+                if isinstance(src_, tuple) and src_ and src_[0] == 'call' and 'into_vec' in src_[1]:
+                    els = None
+                    for abi, abb in enumerate(b['blocks']):
+                        if abb['cleanup'] or not cfg.dominates(abi, bi):
+                            continue
+                        for s_ in abb['stmts']:
+                            if s_['k'] == 'assign' and s_['rv']['k'] == 'aggr' and s_['rv']['ak'].startswith('array') and s_['dst']['p']:
+                                base_ = strip_payload(pv.of_local(s_['dst']['l']))
+                                allocs = {c_[3] for c_ in term_calls(src_) if c_[1].endswith('new_uninit') or c_[1].endswith('Box::new')}
+                                if allocs and any(c_[3] in allocs for c_ in term_calls(base_)):
+                                    els = [strip_payload(pv.of_operand(o)) for o in s_['rv']['ops']]
+                    return els
+                return None
+            vis_lit = literal(vis_arg)
+            front_lit = literal(front_arg) if front_arg is not None else None
             # frontier seed
             if K.front is None and getattr(K, 'node_param', None):
                 seed = strip_payload(pv.of_operand(t['args'][K.node_param - 1]))
                 if seed != ROOT:
                     why.append('the kernel is started at %s, not at the root' % pretty(seed))
+            elif not adds and front_lit is not None:
+                fl_ = [x[2][0] if isinstance(x, tuple) and x and x[0] == 'aggr' and x[1] == 'adt:std::cmp::Reverse::Reverse' else x for x in front_lit]
+                if [strip_payload(x) for x in fl_] != [ROOT]:
+                    why.append('frontier literal holds %s, not exactly the root' % [pretty(x) for x in front_lit])
             elif len(adds) != 1:
                 why.append('%d frontier seeds before the kernel call' % len(adds))
             else:
@@ -234,14 +263,17 @@ def init(ctx, flavours, fams=BUILDERS, which=None):
                 if strip_payload(at) != ROOT:
                     why.append('frontier seeded with %s, not the root' % pretty(at))
             if is_cycle:
-                if ins:
+                if ins or vis_lit:
                     why.append('cycle search marks a node visited before the kernel runs (root could never be re-discovered)')
                 rule = 'CYC-INIT'
                 inst = 'cycle entry: target := key(root), root queued, root not marked'
             else:
                 rule = 'INIT'
                 inst = 'entry: root marked visited and queued before the kernel'
-                if len(ins) != 1:
+                if not ins and vis_lit is not None:
+                    if vis_lit != [KEYROOT]:
+                        why.append('visited literal holds %s, not exactly key(root)' % [pretty(x) for x in vis_lit])
+                elif len(ins) != 1:
                     why.append('%d visited inserts before the kernel call' % len(ins))
                 else:
                     kt = strip_payload(pv.of_operand(ins[0][1]['args'][1]))
@@ -258,6 +290,7 @@ def init(ctx, flavours, fams=BUILDERS, which=None):
                 src = strip_payload(pv.of_operand(t['args'][idx - 1]))
                 fresh = isinstance(src, tuple) and src[0] == 'call' and src[1].split('::')[-1].rstrip('>') in ('new', 'default', 'with_capacity') and not src[2][:0]
                 fresh = fresh or (isinstance(src, tuple) and src[0] == 'call' and src[1].endswith('into_vec'))   # vec![] literal
+                fresh = fresh or literal(src) is not None                                                       # X::from([..]) / vec![..]
                 if not fresh:
                     # state carried over from an earlier call is acceptable only when it is emptied first
                     cleared = [cb for cb, ct in calls_in(b, lambda x: callee_name(x).split('::')[-1] == 'clear') if strip_payload(pv.of_operand(ct['args'][0])) == src and cfg.dominates(cb, bi)]
@@ -611,7 +644,6 @@ def _discipline(K):
         'mark only when accepted': ed(K.exec_true, 'INSERT'),
         'advance only when unvisited': ed(K.notvis, 'ADVANCE'),
         'advance only when accepted': ed(K.exec_true, 'ADVANCE'),
-        'mark before advance': dom('INSERT', 'ADVANCE') or (K.insert_is_test and ed(K.notvis, 'ADVANCE')),
         'take': K.take_m, 'add': K.add_m, 'frontier': K.front_adt.split('::')[-1], 'reverse heap': K.front_reverse,
         'records': bool(K.result), 'has target test': K.teq_true is not None,
         'result kinds': tuple(sorted({k for _, k, _ in K.rets} - {'propagate'})),
@@ -619,8 +651,6 @@ def _discipline(K):
     if K.result:
         d['record only when unvisited'] = ed(K.notvis, 'RECORD')
         d['record only when accepted'] = ed(K.exec_true, 'RECORD')
-        d['record before advance'] = dom('RECORD', 'ADVANCE')
-        d['advance before record'] = dom('ADVANCE', 'RECORD')
         if K.recurse:
             d['record before descent'] = dom('RECORD', 'RECURSE')
             d['descent before record'] = dom('RECURSE', 'RECORD')
@@ -683,7 +713,10 @@ def _enum_stores(F, b, enum_suffix):
             term = None
             kind = None
             if rv['k'] == 'aggr' and rv['ak'] == 'adt:%s::%s' % (b['impl_self_q'], adt['variants'][0]['name']):
-                term, kind = pv.of_operand(rv['ops'][ti]), 'ctor'
+                term = pv.of_operand(rv['ops'][ti])
+                if strip_payload(term) == ('f', ('param', 1), str(ti)):
+                    continue      # struct-update syntax: carried over from self
+                kind = 'store' if b['argc'] >= 1 and F.types[b['locals'][1]].get('p') == b['impl_self_q'] else 'ctor'
             elif s['dst']['p'] and s['dst']['p'][-1].split(':')[0] == '.%d' % ti:
                 lt = F.types[b['locals'][s['dst']['l']]]
                 owner = lt.get('p') or (F.types[lt['a'][0]].get('p') if lt.get('a') else None)
